@@ -1,4 +1,7 @@
 import AslModel.Lemmas.MacroNest
+import AslModel.Lemmas.NestTop
+import AslModel.Lemmas.NestLower
+import AslModel.Lemmas.NestRefuse
 /-! C11 - macro, repetition and inclusion constructs are transparent: property theorems, bookkeeping of expansions
 (recursion counter of a macro, local-symbol handles; Model/MacroNest.lean, Spec/MacroNest.lean).
 
@@ -15,7 +18,27 @@ and decremented again when the expansion is completed ... at a limit settable vi
   behaviour the manual describes) the depth of the handle stack always equals the number of open expansions that have
   delivered a line; `C11_finding_empty_expansion_pops_handle`: with the Restorer of the C code (`emptyPops := true`) an
   empty-bodied macro called from a macro takes the caller's handle away and the caller's own label is undefined
-  afterwards (known finding empty-expansion-pops-enclosing-local-handle). -/
+  afterwards (known finding empty-expansion-pops-enclosing-local-handle, repaired in /repo: the probe selects
+  `emptyPops := false`).
+
+WHOLE PROGRAM (full statement: `NestModel.run p q = NestSpec.run p` in the observable outputs, for every program and enough
+fuel).  Proved, for every program (any macro table, any nesting of calls and repetitions, NESTMAX on or off), every quirk
+value with `emptyPops = false`, every SPEC fuel `F` with which the SPEC's expansion ends, every machine fuel of at least
+`cost p F` rounds per pass (`cost`: computed by `NestSpec.walk`, Lemmas/NestSpecAux.lean):
+* `C11_nest_pass_refines`: one pass of the machine = one pass of the SPEC (code bytes, program counter, symbol table under
+  the renaming handle -> scope, double definitions, undefined symbols / request for another pass, no refusal, input stack
+  and handle stack empty, counters 0) - from any related pair of states, so for the first and the second pass;
+* `C11_nest_run_refines`: the pass loop: two passes iff the first met a label before its definition and no double
+  definition, and then the SPEC's second pass; else the SPEC's first pass;
+* `C11_nest_refines`: model = SPEC in bytes, refusals (none), undefined and doubly defined labels, under the hypotheses
+  "no macro has more than NESTMAX+1 open expansions", "no label twice in one scope" and `Stable` (the SPEC's second pass
+  changes nothing where the first pass found every label); `C11_nest_refines_hypothesis_needed` /
+  `C11_finding_forward_shadow`: without `Stable` the statement is false of the model AND of the real assembler (known
+  finding forward-reference-to-local-label-takes-outer-label);
+* `C11_nest_refuses_partial`: more than NESTMAX+1 open expansions in an expansion that ends => the machine refuses
+  (PARTIAL: not for expansions that never end under a limit, see there);
+* `C11_nest_pass_ends_iff`: with the limit off a fuel for which the machine's pass ends exists iff the SPEC's expansion
+  ends for some fuel (both directions with computable fuels); `C11_nest_unbounded_recursion`: the non-terminating case. -/
 namespace AslModel.NestModel
 open AslModel.NestSpec
 
@@ -167,7 +190,195 @@ theorem C11_finding_empty_expansion_pops_handle :
     (run findingProg { emptyPops := false } 100).out = (AslModel.NestSpec.run findingProg 100).out := by
   decide
 
+/-! ### the machine carries out the SPEC's structural expansion -/
+
+/-- ONE PASS.  For every program (any macro table, any nesting of calls and repetitions, NESTMAX on or off), a Restorer
+    that pops only what the tag has pushed, any fuel `F` for which the SPEC's expansion of the program ends (`ok`) without
+    a macro ever having more than NESTMAX+1 open expansions, and any machine state `ms0` / SPEC state `s0` at the beginning
+    of pass `n` that are related (`Data`: same symbol table under the renaming `ρ` of handles to scopes, counters at 0):
+    the machine's pass - run with at least `cost p F` rounds - ends with an empty input stack, no handle left, all
+    recursion counters at 0, no call refused, and with exactly the SPEC's code bytes, program counter, symbol table
+    (under `ρ`), number of double definitions and of undefined symbols (in pass 1: the request for another pass). -/
+theorem C11_nest_pass_refines (p : Prog) (q : Quirks) (hq : q.emptyPops = false) (F : Nat) (ms0 : St) (s0 : SSt) (n : Nat)
+    (hg : Good p (lines p F topCtx p.top s0))
+    (hd : Data (rhoOf (walk p F 0 p.top {}).log (walk p F 0 p.top {}).ns) s0 (startPass p ms0 n))
+    (hu : ∀ m, ms0.use m = 0) (hns : s0.nextScope = 1) (fuel : Nat) (hfuel : cost p F ≤ fuel) :
+    PassOut (rhoOf (walk p F 0 p.top {}).log (walk p F 0 p.top {}).ns) (lines p F topCtx p.top s0)
+      (runPass p q fuel (startPass p ms0 n)) :=
+  pass_sim hq (rhoOf_ok _ ((walk_ext p F 0 p.top {}).2 winv_init)) F ms0 s0 n hg (rhoOf_agree _ _) hd hu hns fuel hfuel
+
+/-- THE PASS LOOP.  Under the same hypotheses on the SPEC's run (`ok`, limit), for every fuel of at least `cost p F` rounds
+    per pass the machine's run ends with an empty input stack, no handle left and no call refused, and
+    * if the SPEC's first pass met a label before its definition and no double definition: after a second pass, with the code
+      bytes, the undefined and the doubly defined symbols of the SPEC's run (`NestSpec.run`, the SPEC's second pass);
+    * otherwise after the first pass, with the code bytes and double definitions of the SPEC's first pass. -/
+theorem C11_nest_run_refines (p : Prog) (q : Quirks) (hq : q.emptyPops = false) (F : Nat)
+    (hok : (AslModel.NestSpec.run p F).ok = true)
+    (hlim : p.nestMax = 0 ∨ (AslModel.NestSpec.run p F).maxOpen ≤ p.nestMax + 1)
+    (fuel : Nat) (hfuel : cost p F ≤ fuel) : RunOut p F (run p q fuel) :=
+  run_sim_passes hq F ⟨hok, hlim⟩ fuel hfuel
+
+/-- WHOLE PROGRAM.  `NestModel.run p q = NestSpec.run p` in everything that can be observed: the delivered lines' code
+    bytes, the refused calls (none), the undefined and the doubly defined labels - for every program, NESTMAX on or off,
+    every fuel of at least `cost p F` rounds per pass.  Hypotheses: the Restorer pops only what the tag has pushed; the
+    SPEC's expansion ends; no macro has more than NESTMAX+1 open expansions (the calls the machine carries out); no label
+    is defined twice in one scope (otherwise the assembler stops after the first pass: `C11_nest_run_refines`);
+    `Stable`: where the first pass has found every label, the SPEC's second pass writes the same bytes - the assembler makes
+    no second pass then (needed: `C11_nest_refines_hypothesis_needed`, known finding
+    forward-reference-to-local-label-takes-outer-label). -/
+theorem C11_nest_refines (p : Prog) (q : Quirks) (hq : q.emptyPops = false) (F : Nat)
+    (hok : (AslModel.NestSpec.run p F).ok = true)
+    (hlim : p.nestMax = 0 ∨ (AslModel.NestSpec.run p F).maxOpen ≤ p.nestMax + 1)
+    (hdbl : (AslModel.NestSpec.run p F).dbl = 0) (hstab : Stable p F) (fuel : Nat) (hfuel : cost p F ≤ fuel) :
+    (run p q fuel).out = (AslModel.NestSpec.run p F).out ∧ (run p q fuel).refused = 0 ∧
+    (run p q fuel).undef = (AslModel.NestSpec.run p F).undef ∧ (run p q fuel).dbl = 0 ∧
+    (run p q fuel).stack = [] ∧ (run p q fuel).hstack = [] := by
+  have h := run_sim_passes hq F ⟨hok, hlim⟩ fuel hfuel
+  obtain ⟨hd12, hu12, _⟩ := run_vs_first p F
+  by_cases hC : (first p F).dbl = 0 ∧ 0 < (first p F).undef
+  · obtain ⟨_, ho, hu, hd⟩ := h.two hC
+    exact ⟨ho, h.refused, hu, hd.trans hdbl, h.stack, h.hstack⟩
+  · obtain ⟨_, ho, hu, hd⟩ := h.one hC
+    have hu0 : (first p F).undef = 0 := by
+      rcases Nat.eq_zero_or_pos (first p F).undef with h0 | hpos
+      · exact h0
+      · exact absurd ⟨hd12.trans hdbl, hpos⟩ hC
+    have hu2 : (AslModel.NestSpec.run p F).undef = 0 := by omega
+    exact ⟨ho.trans (hstab hu0), h.refused, hu.trans hu2.symm, hd.trans (hd12.trans hdbl), h.stack, h.hstack⟩
+
+/-- THE REFUSALS.  Full statement: whenever the SPEC's verdict is `mustRefuse` (NESTMAX on and the expansion by hand opens
+    more than NESTMAX+1 expansions of one macro at a time, or never ends) the machine refuses a call.  PARTIAL: proved for
+    every program whose expansion by hand ENDS (`ok`, any fuel F); missing is the expansion that never ends under a limit.
+    That needs "an expansion without end opens unboundedly many expansions of one macro", a counting argument over the
+    finite macro table that is not done - and a well-formedness hypothesis: a reduced program in which the body of a
+    repetition contains this very repetition (`loop d` inside body `d`; no source text has this shape) never ends and never
+    calls a macro.  The correspondence check runs unbounded recursion under a limit on the real assembler;
+    `C11_nest_unbounded_recursion` treats the limit switched off. -/
+theorem C11_nest_refuses_partial (p : Prog) (q : Quirks) (hq : q.emptyPops = false) (F : Nat)
+    (hok : (AslModel.NestSpec.run p F).ok = true) (hN : 0 < p.nestMax)
+    (hbig : p.nestMax + 1 < (AslModel.NestSpec.run p F).maxOpen) (fuel : Nat) (hfuel : cost p F ≤ fuel) :
+    0 < (run p q fuel).refused :=
+  refuses hq F hok hN hbig fuel hfuel
+
+/-- bounded recursion to depth 5 under NESTMAX 2 -/
+def deepProg : Prog := { defs := [{ gs := false, body := [.emit 1, .callDec 0] }], top := [.call 0 5], nestMax := 2 }
+
+/-- the hypotheses of `C11_nest_refuses_partial` hold for `deepProg`; the machine refuses one call (and the SPEC's verdict
+    is `mustRefuse`) -/
+example : (AslModel.NestSpec.run deepProg 20).ok = true ∧ 0 < deepProg.nestMax ∧
+    deepProg.nestMax + 1 < (AslModel.NestSpec.run deepProg 20).maxOpen ∧ cost deepProg 20 ≤ 40 ∧
+    (run deepProg { emptyPops := false } 40).refused = 1 ∧
+    verdict deepProg (AslModel.NestSpec.run deepProg 20) = .mustRefuse := by
+  decide +kernel
+
+/-- ENOUGH FUEL EXISTS IFF THE EXPANSION IS FINITE.  With the limit switched off (NESTMAX 0) the machine's pass over the
+    program ends for some fuel iff the SPEC's structural expansion ends for some fuel; the fuels are computable from each
+    other: `cost p F` rounds are enough when the SPEC needs `F`, and when the machine ends within `fuel` rounds the SPEC's
+    expansion ends within `fuel + 1`. -/
+theorem C11_nest_pass_ends_iff (p : Prog) (q : Quirks) (hq : q.emptyPops = false) (h0 : p.nestMax = 0) :
+    (∃ fuel, (runPass p q fuel (startPass p {} 1)).stack = []) ↔ (∃ F, (first p F).ok = true) := by
+  constructor
+  · rintro ⟨fuel, hdone⟩
+    refine ⟨fuel + 1, ?_⟩
+    cases hok : (first p (fuel + 1)).ok with
+    | true => rfl
+    | false =>
+      obtain ⟨k, ms', hk, hsteps⟩ := pass_runs_long (q := q) hq h0 (fuel + 1) hok
+      have := steps_le_of_done hsteps fuel hdone
+      omega
+  · rintro ⟨F, hok⟩
+    exact ⟨cost p F, (C11_nest_pass_refines p q hq F {} {} 1 (good_of_ok h0 hok)
+      ⟨rfl, rfl, rfl, rfl, fun _ => rfl, fun _ => rfl, rfl, rfl, (fun _ h => nomatch h), rfl, rfl⟩ (fun _ => rfl) rfl _
+      (Nat.le_refl _)).stack⟩
+
+/-- `m macro / db 1 / m / endm ; m` with NESTMAX 0 -/
+def loopProg : Prog := { defs := [{ gs := false, body := [.emit 1, .call 0 0] }], top := [.call 0 0], nestMax := 0 }
+
+/-- THE NON-TERMINATING CASE: a macro that calls itself, limit switched off.  The SPEC's expansion ends for no fuel, and
+    the machine's pass ends for no fuel. -/
+theorem C11_nest_unbounded_recursion (q : Quirks) (hq : q.emptyPops = false) :
+    (∀ F, (AslModel.NestSpec.run loopProg F).ok = false) ∧
+    (∀ fuel, (runPass loopProg q fuel (startPass loopProg {} 1)).stack ≠ []) := by
+  have hstay : ∀ F c ls s, s.ok = false → (lines loopProg F c ls s).ok = false := by
+    intro F c ls s hs
+    cases h : (lines loopProg F c ls s).ok with
+    | false => rfl
+    | true => rw [(lines_mono loopProg F c ls s).1 h] at hs; cases hs
+  have key : ∀ F, (∀ c s, (lines loopProg F c [.call 0 0] s).ok = false) ∧
+      (∀ c s, (lines loopProg F c [.emit 1, .call 0 0] s).ok = false) := by
+    intro F
+    induction F with
+    | zero => exact ⟨fun c s => by rw [lines_zero], fun c s => by rw [lines_zero]⟩
+    | succ F ih =>
+      refine ⟨fun c s => ?_, fun c s => ?_⟩
+      · rw [lines_cons]
+        apply hstay
+        exact ih.2 _ _
+      · rw [lines_cons]
+        exact ih.1 _ _
+  refine ⟨fun F => (key F).1 _ _, fun fuel hdone => ?_⟩
+  obtain ⟨F, hok⟩ := (C11_nest_pass_ends_iff loopProg q hq rfl).1 ⟨fuel, hdone⟩
+  have : (first loopProg F).ok = false := (key F).1 _ _
+  rw [hok] at this; cases this
+
+/-- `lb1: / m` with `m macro / db lb1&255 / lb1: / endm`: the private label has the name of a global one and is used
+    before its definition -/
+def shadowProg : Prog :=
+  { defs := [{ gs := false, body := [.reflab 1, .deflab 1] }], top := [.deflab 1, .call 0 0], nestMax := 256 }
+
+/-- KNOWN FINDING forward-reference-to-local-label-takes-outer-label (model level; the real assembler does the same):
+    the first pass finds the global label, nothing is undefined, no second pass is made and the byte is the GLOBAL
+    label's value 0; the expansion by hand (`NestSpec.run`) uses the private label, value 1, and has no error. -/
+theorem C11_finding_forward_shadow :
+    (run shadowProg { emptyPops := false } 100).out = [0] ∧ (run shadowProg { emptyPops := false } 100).pass = 1 ∧
+    errors (run shadowProg { emptyPops := false } 100) = 0 ∧
+    (AslModel.NestSpec.run shadowProg 100).out = [1] ∧ (AslModel.NestSpec.run shadowProg 100).undef = 0 ∧
+    (AslModel.NestSpec.run shadowProg 100).dbl = 0 := by
+  decide
+
+/-- ... so `C11_nest_refines` needs its hypothesis `Stable`: all other hypotheses hold for `shadowProg`, the conclusion does
+    not. -/
+theorem C11_nest_refines_hypothesis_needed : (AslModel.NestSpec.run shadowProg 100).ok = true ∧
+    (shadowProg.nestMax = 0 ∨ (AslModel.NestSpec.run shadowProg 100).maxOpen ≤ shadowProg.nestMax + 1) ∧
+    (AslModel.NestSpec.run shadowProg 100).dbl = 0 ∧ cost shadowProg 100 ≤ 100 ∧ ¬ Stable shadowProg 100 ∧
+    (run shadowProg { emptyPops := false } 100).out ≠ (AslModel.NestSpec.run shadowProg 100).out := by
+  decide
+
 /-! non-vacuity -/
+
+/-- a program with nested calls, a GLOBALSYMBOLS macro, repetitions (with and without lines, counts 0 and 2), bounded
+    recursion, an empty macro, private labels used before and after their definition, a global label used before its
+    definition (so two passes are needed) -/
+def refProg : Prog :=
+  { defs := [ { gs := false, body := [.deflab 1, .emit 7, .reflab 2, .call 1 1, .deflab 2, .call 4 0, .reflab 1] },
+              { gs := true, body := [.defArg, .loop 2 2 .irp, .refArg] },
+              { gs := false, body := [.deflab 5, .reflab 5, .callDec 1] },
+              { gs := false, body := [.emit 9] },
+              { gs := false, body := [] } ],
+    top := [.reflab 9, .call 0 0, .loop 3 0 .rept, .loop 3 0 .irpc, .loop 4 2 .rept, .deflab 9, .emit 255], nestMax := 2 }
+
+/-- the hypotheses of `C11_nest_refines` hold for `refProg` (SPEC fuel 30): the expansion ends, macro 1 has at most
+    NESTMAX = 2 open expansions, a second pass is needed and made -/
+example : (AslModel.NestSpec.run refProg 30).ok = true ∧
+    (refProg.nestMax = 0 ∨ (AslModel.NestSpec.run refProg 30).maxOpen ≤ refProg.nestMax + 1) ∧
+    (AslModel.NestSpec.run refProg 30).dbl = 0 ∧ Stable refProg 30 ∧
+    (first refProg 30).undef = 2 ∧ (AslModel.NestSpec.run refProg 30).maxOpen = 2 ∧ cost refProg 30 = 53 := by
+  decide +kernel
+
+/-- `C11_nest_refines` on `refProg`: what the machine delivers with 53 or more rounds per pass -/
+example (fuel : Nat) (h : 53 ≤ fuel) : (run refProg { emptyPops := false } fuel).out =
+    [255, 1, 3, 8, 9, 8, 7, 4, 5, 4, 3, 12, 7, 13] ∧
+    (run refProg { emptyPops := false } fuel).refused = 0 := by
+  have hr := C11_nest_refines refProg { emptyPops := false } rfl 30 (by decide +kernel) (by decide +kernel)
+    (by decide +kernel) (by decide +kernel) fuel (by
+      have : cost refProg 30 = 53 := by decide +kernel
+      omega)
+  exact ⟨hr.1.trans (by decide +kernel), hr.2.1⟩
+
+/-- the hypotheses of `C11_nest_pass_refines` at the beginning of the first pass -/
+example : Data (rhoOf (walk refProg 30 0 refProg.top {}).log (walk refProg 30 0 refProg.top {}).ns) {} (startPass refProg {} 1) :=
+  ⟨rfl, rfl, rfl, rfl, fun _ => rfl, fun _ => rfl, rfl, rfl, (fun _ h => nomatch h), rfl, rfl⟩
+
 
 example : (step findingProg {} (startPass findingProg {} 1)).isSome = true := by decide
 
